@@ -5,7 +5,8 @@
 
    Output, one line per fact:
      <id> OK                          model and implementation agree on every step
-     <id> DIFF <step> <op> <R|P> <model-token>   first step at which they differ
+     <id> DIFF <step> <op> <R|S|P> <model-token>   first step at which they differ (R: the step's
+       result; S: only what String() shows of the result; P: only the re-observed pool)
      <id> V <prop> <guard> <impl> <model>   verdicts of check_<prop> (0/1) *)
 
 open BinNums
@@ -371,7 +372,16 @@ let mode_cases cases_path res_path =
             let opname k = (match Stdlib.List.nth_opt c.steps k with Some (_, op) -> op_name op | None -> "?") in
             let kind m i =
               let first s = Stdlib.List.hd (String.split_on_char ';' s) in
-              if first m <> first i then "R" else "P" in
+              if first m = first i then "P" else begin
+                (* S: the step's own result differs only in what String() (= CommitAll) shows of it:
+                   its text, options and parent reference agree *)
+                let fm = Array.of_list (String.split_on_char '|' (first m))
+                and fi = Array.of_list (String.split_on_char '|' (first i)) in
+                if Array.length fm = 9 && Array.length fi = 9 && fm.(6) <> fi.(6)
+                   && (let same = ref true in
+                       Array.iteri (fun k x -> if k <> 6 && x <> fi.(k) then same := false) fm; !same)
+                then "S" else "R"
+              end in
             let rec cmp k ms is = match ms, is with
               | [], [] -> Printf.printf "%s OK\n" c.id
               | m :: ms', i :: is' -> if m = i then cmp (k + 1) ms' is' else Printf.printf "%s DIFF %d %s %s %s\n" c.id k (opname k) (kind m i) m
